@@ -372,6 +372,9 @@ def link(state, address: int) -> bytes:
     return b""
 
 
+MAX_INCLUDE_DEPTH = 32
+
+
 @metacommand
 def include(state, included_file_path: str):
     include_path = devices.resolve_relative_path(included_file_path, state["filename"])
@@ -411,12 +414,26 @@ def include(state, included_file_path: str):
         )
         return b""
 
+    compiler = state["compiler"]
+    if compiler.include_depth >= MAX_INCLUDE_DEPTH:
+        # There are no conditionals, so a file that includes itself (directly or
+        # through other files) without '.once' would recurse forever
+        reports.error(
+            "recursive-include",
+            (state["insn"].ctx_start, state["insn"].ctx_end, f"Files are included more than {MAX_INCLUDE_DEPTH} levels deep.\nDoes '{include_path}' include itself? Use '.once' to include a file just once.")
+        )
+        return b""
+
     # parser needs to have a list of metacommands. This avoids cyclic dependency.
     # pylint: disable=import-outside-toplevel
     from . import parser
     file_ast = parser.parse(include_path, code)
 
-    code = state["compiler"].compile_include(file_ast, state["emit_address"])
+    compiler.include_depth += 1
+    try:
+        code = compiler.compile_include(file_ast, state["emit_address"])
+    finally:
+        compiler.include_depth -= 1
 
     return code
 
